@@ -179,6 +179,18 @@ def gen_plan(rng, run_index, tier, opts):
             "cfg": {"mip": is_mip, "T": T}}
     if split:
         plan["split"] = split
+    # (round 10; drawn last so that the other choices of a run do not depend on them)
+    for tk in ticks:
+        if is_mip and rng.random() < 0.12:
+            tk["soft_solve"] = True              # the desk looks at the relaxation of the fixed problem: the window stays pinned there too
+        r_ = rng.random()
+        if r_ < 0.07:
+            tk["x_dtype"] = "int"                # the held schedule handed over as whole numbers in an integer array
+        elif r_ < 0.11:
+            tk["x_dtype"] = "f32"
+        if rng.random() < 0.15:
+            # other use of the live portfolio between the solve that gave x and the rebuild with the window
+            tk["between"] = rng.choice(["to_json", "to_json", "params_tree", "setup_plain", "to_json_assets", "set_timegrid"])
     return plan
 
 
@@ -274,8 +286,10 @@ class Desk:
             self.violation = {"clause": clause, "tick": tick, "detail": detail, "field": field,
                               "signature": "%s|%s|%s" % (ID, clause, field)}
 
-    def solve(self, op, fault=None):
+    def solve(self, op, fault=None, soft=False):
         kw = {}
+        if soft:
+            kw["make_soft_problem"] = True
         if self.plan["solver"]:
             kw["solver"] = self.plan["solver"]
         with seams.SimSolver([fault] if fault else []) as ss:
@@ -328,6 +342,27 @@ class Desk:
         self.x_is_opt_for = curve
         self.stats["accepted"] += 1
 
+    def between(self, what, P, g, k):
+        """History-making calls on the live portfolio between two ticks (they must not matter; their own outcome is not judged)."""
+        import eaopack as eao
+        self.fault("between_" + what)
+        try:
+            if what == "to_json":
+                eao.serialization.to_json(P)
+            elif what == "to_json_assets":
+                for a in P.assets:
+                    eao.serialization.to_json(a)
+            elif what == "params_tree":
+                eao.io.get_params_tree(P)
+            elif what == "setup_plain":
+                P.setup_optim_problem(self.B.prices(self.plan["curves"][(k + 1) % len(self.plan["curves"])]), g)
+                self.grid_set = True
+            elif what == "set_timegrid":
+                P.set_timegrid(g)
+                self.grid_set = True
+        except Exception as e:
+            self.events.append((k, "between-raise:%s@%s" % canon.exc_sig(e)))
+
     def tick(self, k, tk):
         import eaopack as eao
         plan = self.plan
@@ -346,6 +381,8 @@ class Desk:
         g = self.B.grid(plan["grid"])
         pr = self.B.prices(plan["curves"][tk["curve"]])
         T = g.T
+        if tk.get("between"):
+            self.between(tk["between"], P, g, k)
         now = min(tk["now"], T if (tk["form"] != "date" or tk.get("date_pos")) else T - 1)
         self.stats["grid_steps_rolled"] += now
         # --- the solution the desk fixes to
@@ -423,6 +460,11 @@ class Desk:
         if len(x_fix) < n:
             self.events.append((k, "x shorter than problem"))
             return
+        if tk.get("x_dtype"):
+            # any vector is a legal previous solution, also a schedule kept as whole numbers or in single precision
+            x_fix = np.rint(x_fix).astype(np.int64) if tk["x_dtype"] == "int" else np.asarray(x_fix, dtype=np.float32)
+            x_kind = "recast"
+            self.fault("x_" + tk["x_dtype"])
         # --- system: set-up with the window
         if tk.get("reuse_dict"):
             self.fix_dict["I"] = I
@@ -431,7 +473,7 @@ class Desk:
             self.fault("dict_reuse")
         else:
             fx = {"I": I, "x": x_fix}
-        x_ref = x_fix.copy()
+        x_ref = np.asarray(x_fix, dtype=float).copy()
         garg = g
         if tk["grid_arg"] == "none":
             if not self.grid_set:
@@ -510,7 +552,10 @@ class Desk:
         self.reach(m, fixed, W, tk, x_kind)
         # --- solve
         sol_fault = tk.get("solver_fault")
-        res = self.solve(sop, sol_fault)
+        soft = bool(tk.get("soft_solve"))
+        res = self.solve(sop, sol_fault, soft=soft)
+        if soft:
+            self.fault("soft_solve")
         clean = sol_fault is None
         same_curve = (self.x_is_opt_for == tk["curve"]) and x_kind in ("solution", "longer") and not tk.get("skip_nodes")
         x_feasible_by_construction = x_kind in ("solution", "longer", "slp")
@@ -554,6 +599,10 @@ class Desk:
             j = int(np.where(fixed)[0][int(np.argmax(dev - tol))])
             self.viol("F4-window-variable-moved", k, "variable %d (%s): new value %r, previous %r" % (j, describe_var(m, j), x[j], x_ref[j]),
                       field=var_kind(self.w, m, j))
+            return
+        if soft:
+            # (the relaxation's value and point are not what the desk holds on to; F4 was the claim)
+            self.events.append((k, "soft:" + canon.digest_canon({"v": float(res.value)}, nd=4)))
             return
         # F5 is sound only if nothing that was pinned when the held optimum was computed is released now
         # (otherwise the new problem is a relaxation and its value may legitimately be better)
@@ -631,7 +680,7 @@ class Desk:
         if (multi & fixed).any():
             feats.add("multirow")
         cls_sig = ",".join(sorted({name2cls.get(a, "?") for a in set(assets)}))
-        state = "%s|%s|%s|%s|%s|%s|%s" % (tk["form"] + ("/empty" if tk.get("empty") else "/gaps" if tk.get("steps") else "/mid" if tk.get("lo") else "") + ("/skip" if tk.get("skip_nodes") else "") + ("/split" if self.plan.get("split") else "") + ("/" + tk["date_tz"] if tk.get("date_tz") else ""), tk["grid_arg"], tk["feed"], x_kind, tk.get("solver_fault", "-"),
+        state = "%s|%s|%s|%s|%s|%s|%s" % (tk["form"] + ("/empty" if tk.get("empty") else "/gaps" if tk.get("steps") else "/mid" if tk.get("lo") else "") + ("/skip" if tk.get("skip_nodes") else "") + ("/split" if self.plan.get("split") else "") + ("/soft" if tk.get("soft_solve") else "") + ("/after:" + tk["between"] if tk.get("between") else "") + ("/" + tk["date_tz"] if tk.get("date_tz") else ""), tk["grid_arg"], tk["feed"], x_kind, tk.get("solver_fault", "-"),
                                          "restart" if tk.get("restart") else "-", ",".join(sorted(feats)) or "plain")
         trivial = (not feats) and tk["feed"] == "new" and x_kind == "solution" and not tk.get("solver_fault") and not tk.get("restart")
         self.pairs.add(("T|" if trivial else "N|") + state + "|" + cls_sig)
@@ -686,7 +735,7 @@ def simplify_candidates(plan):
             c["world"]["portfolios"][P]["assets"] = [x for x in assets if x != a]
             yield c
     for i, tk in enumerate(plan["ticks"]):
-        for k in ("solver_fault", "restart", "x_source", "reuse_dict", "lo", "steps", "skip_nodes", "empty"):
+        for k in ("solver_fault", "restart", "x_source", "reuse_dict", "lo", "steps", "skip_nodes", "empty", "soft_solve", "x_dtype", "between"):
             if tk.get(k):
                 c = copy.deepcopy(plan)
                 c["ticks"][i].pop(k)
